@@ -1221,6 +1221,8 @@ class If(BeginStatement):
             newitem = self.get_item()
         else:
             newitem = item.copy(line, apply_map=True)
+            # The label belongs to the IF statement, not to its action statement.
+            newitem.label = None
         newline = newitem.get_line()
         for cls in classes:
             if cls.match(newline):
